@@ -16,8 +16,15 @@ def load_units():
     import specs
     importlib.reload(specs)
     units = {}
+    only = os.environ.get("VERIF_ONLY_UNIT")
     for name in specs.UNITS:
-        m = importlib.import_module("specs." + name)
+        if only and name != only:
+            continue
+        try:
+            m = importlib.import_module("specs." + name)
+        except Exception as e:
+            sys.stderr.write("WARNING: spec module %s failed to load: %r\n" % (name, e))
+            continue
         units[name] = m.UNIT
     return units, specs
 
@@ -33,6 +40,8 @@ def fn_props(f):
 def units_for(prop, units):
     out = []
     for n, u in units.items():
+        if getattr(u, "dev", False):
+            continue
         for x in u.items:
             if x.kind == "fn" and prop in fn_props(x):
                 out.append(n)
@@ -259,7 +268,7 @@ def check_property(prop, tier, units, specs, rebaseline=False, only_unit=None, s
                 undecided.append("%s: %s" % (q, und))
             for fl in fails:
                 oid = obligation_id(q, fl)
-                in_base = base is None or q in base.get("verified", [])
+                in_base = base is not None and q in base.get("verified", [])
                 hit = None
                 for k in known:
                     if k.get("kind") == "finding" and k.get("property") == prop and k.get("fn") == q and re.search(k.get("obligation_re", "^$"), oid):
